@@ -38,6 +38,15 @@ DECOMPILE_SRC = {
     "d_ifs2": "def 0 { x(); if (edit) { y(); } elseif ($B == 2) { z(); } else { w(); } v(); end; }",
     "d_switch": "def 0 { switch ($V) { case 1: a(); break; case 2: b(); break; default: c(); break; } d(); end; }",
     "d_loop": "def 0 { forever { a(); if (debug) { break_loop; } b(); } c(); end; }",
+    # multi-line strings in places where the writers print parameters themselves (switch over an operation, menu2 case,
+    # operation behind an inline context)
+    "d_header_strings": "def 0 { switch (ProcessSpecial('first line\\nsecond line', 1, 2)) { case 1: Op(1); break; } "
+                        "switch (message_SwitchMenu2(0, 1)) { case menu2(5): x(); break; case menu('two\\nlines'): y(); break; } "
+                        "say<actor 2>('inline\\nctx', {english='a\\nb'}); end; }",
+    # five break points (sets of igraph edges with more than 8 slots) and cases that are reached twice (edge numbers in label names)
+    "d_many_breaks": "def 0 { while ($A == 1) { " + "".join(
+        f"switch ($S{i}) {{ case 1: break_loop; case 2: Op{i}(2); break; " + ("case 3: break_loop; " if i == 0 else "") + "} "
+        for i in range(4)) + "} After(1); end; }",
     "d_strings": "def 0 { if (debug) { say('two\\nlines', {english='a\\nb'}); } say2(\"x\\ny\"); hold; }",
     "d_two_routines": "def 0 { a(); if ($A > 1) { b(); } end; } def 1 for actor 2 { switch (random(3)) { case 0: c(); break; } hold; }",
 }
@@ -57,7 +66,7 @@ RAW_FALLBACK = "raw_fallback"   # a set the structuring passes reject -> SsbScri
 CLI_DOC = "cli_doc"
 
 OPS = (list(COMPILE_TEXTS) + ["c_import", "c_reuse:c_simple", "c_reuse:c_switch", "c_reuse:c_fail_late", "c_reuse:c_import"] +
-       list(DECOMPILE_SRC) + [RAW_FALLBACK, CLI_DOC, "ssbs_compile", "ssbs_compile_bad", "ssbs_decompile"])
+       list(DECOMPILE_SRC) + [RAW_FALLBACK, CLI_DOC, "ssbs_compile", "ssbs_compile_bad", "ssbs_decompile", "ssbs_decompile:d_header_strings"])
 
 
 def digest(obj):
@@ -110,8 +119,8 @@ class World:
                 return ["ok", describe_comp(impl.compile_ssbs(SSBS_TEXT))]
             if op == "ssbs_compile_bad":
                 return ["ok", describe_comp(impl.compile_ssbs(SSBS_BAD))]
-            if op == "ssbs_decompile":
-                rops, infos, coros = self.decompile_input("d_strings")
+            if op.startswith("ssbs_decompile"):
+                rops, infos, coros = self.decompile_input(op.split(":", 1)[1] if ":" in op else "d_strings")
                 before = decomp.snapshot(rops, infos, coros)
                 text, sm = impl.decompile_ssbs(rops, infos, coros)
                 after = decomp.snapshot(rops, infos, coros)
@@ -286,6 +295,10 @@ def run(tier, seed):
             for ops in itertools.product(OPS, repeat=d):
                 for env in (envs if d <= 2 else envs[:2]):
                     yield ("hist", ops, env), (ops, env)
+        # every decompiler input alone, with 1..24 other graphs alive (other addresses of the graph objects)
+        for name in list(DECOMPILE_SRC) + [RAW_FALLBACK]:
+            for k in range(1, 25):
+                yield ("hist-heap", name, k), ((name,), (0, k))
         # long repetitions of colliding decompiler inputs (recycled graph ids need many allocations)
         for a, b in itertools.permutations(list(DECOMPILE_SRC) + [RAW_FALLBACK], 2):
             yield ("hist-long", a, b), ((a, b) * 6, (1, 0))
@@ -302,7 +315,7 @@ def run(tier, seed):
         rule=f"all histories of <= {depth} calls over {len(OPS)} operations (7 compile texts incl. 3 that raise at different stages, a project on disk with nested imports and three imported files defining the same macro, "
              "4 of them also through one reused compiler object, 6 decompiler inputs reused across calls, a routine set that "
              "takes the fallback path, the CLI's read_routines + decompile, SsbScript compile (good / syntax error) and decompile) x environment choices (gc.collect() between calls; "
-             "3 graphs held to shift the heap phase), plus 42 twelve-call alternations of two decompiler inputs; every history runs "
+             "3 graphs held to shift the heap phase), every decompiler input alone with 1..24 other graphs alive, plus 42 twelve-call alternations of two decompiler inputs; every history runs "
              "in a fresh fork of the pristine template; after every call the result (ops / text / serialised source map / "
              "exception, and 'input routine set structurally unchanged') must equal the pristine result; the pristine results "
              "must equal those of eight fresh interpreters (PYTHONHASHSEED 0..6 and 4242); states = distinct canonical process states "
